@@ -106,6 +106,7 @@ func c19Scenarios(tier mc.Tier) []mc.Scenario {
 		p *= int64(np)
 	}
 	lists *= 4 // x what preceded the judged call
+	listsWithInfo := lists * 3 // x signing time in the signer info (only when there is a signer info)
 	var out []mc.Scenario
 	var gen func(prefix []int)
 	body := func(chain []int, nilInfo bool) func(*mc.Ctx) {
@@ -127,6 +128,16 @@ func c19Scenarios(tier mc.Tier) []mc.Scenario {
 			var info *signature.SignerInfo
 			if !nilInfo {
 				info = &signature.SignerInfo{}
+				// what else the signer info says is irrelevant to the trust decision: signing times far outside every certificate's validity
+				switch c.ChooseFree("signing-time-in-the-signer-info", 3) {
+				case 1:
+					info.SignedAttributes.SigningTime = time.Date(1990, 1, 1, 0, 0, 0, 0, time.UTC)
+					info.SignedAttributes.SigningScheme = signature.SigningSchemeX509
+				case 2:
+					info.SignedAttributes.SigningTime = time.Date(2200, 1, 1, 0, 0, 0, 0, time.UTC)
+					info.SignedAttributes.SigningScheme = signature.SigningSchemeX509SigningAuthority
+					info.SignedAttributes.Expiry = time.Date(1991, 1, 1, 0, 0, 0, 0, time.UTC)
+				}
 				for _, ci := range chain {
 					if prime == 0 {
 						info.CertificateChain = append(info.CertificateChain, c19Parse(ci))
@@ -237,7 +248,7 @@ func c19Scenarios(tier mc.Tier) []mc.Scenario {
 	gen = func(prefix []int) {
 		if len(prefix) > 0 {
 			ch := append([]int(nil), prefix...)
-			out = append(out, mc.Scenario{Name: fmt.Sprintf("chain%v", ch), Body: body(ch, false), Bound: -1, Expect: lists})
+			out = append(out, mc.Scenario{Name: fmt.Sprintf("chain%v", ch), Body: body(ch, false), Bound: -1, Expect: listsWithInfo})
 		}
 		if len(prefix) == maxLen {
 			return
@@ -248,7 +259,7 @@ func c19Scenarios(tier mc.Tier) []mc.Scenario {
 	}
 	gen(nil)
 	out = append(out, mc.Scenario{Name: "nil-signer-info", Body: body(nil, true), Bound: -1, Expect: lists})
-	out = append(out, mc.Scenario{Name: "empty-chain", Body: body([]int{}, false), Bound: -1, Expect: lists})
+	out = append(out, mc.Scenario{Name: "empty-chain", Body: body([]int{}, false), Bound: -1, Expect: listsWithInfo})
 	out = append(out, mc.Scenario{Name: "authentic-signing-time", Bound: -1, Expect: 28, Body: func(c *mc.Ctx) {
 		schemes := []signature.SigningScheme{signature.SigningSchemeX509, signature.SigningSchemeX509SigningAuthority, "", "notary.x509.other"}
 		// the zero instant in several representations (IsZero is about the instant, not the location), and non-zero instants
